@@ -18,7 +18,12 @@
 5. Selection with ties (CmapSel.tla): several languages per (platform, encoding), every insertion order,
    Get/GetNoLang/GetBest called 64 times per site in several fresh processes, before and after
    Encode/Decode: the answer must be a candidate and the same every time.
-6. TLC judges every recorded event with CmapTrace.tla; a failing clause is re-recorded in
+6. Directory level with RAW bodies (CmapRawGen.tla: every format number a Table can hold, odd and even
+   lengths); API agreement (Get / GetNoLang / GetBest swept over the code space must denote the map the
+   subtable defines for its platform, GetBest = Get on a key of the best class; tables without any Unicode
+   subtable enumerated exhaustively); size law at the 16-bit boundary (CmapSizeGen.tla: families whose
+   tightest encoding is known in closed form, largest n that fits and the next one beyond).
+7. TLC judges every recorded event with CmapTrace.tla; a failing clause is re-recorded in
    isolation (complete sweep 0..0x10FFFF) and re-judged before it is reported.
 """
 import json
@@ -44,7 +49,12 @@ MANIFEST = {
             "CmapHist.tla is an object model of handed-out results (ResultsStable; must fail with a re-used scratch "
             "buffer): every history of 2-3 calls is executed with the real results retained and re-read after later "
             "calls; CmapSel.tla enumerates tables with several languages per (platform, encoding) in every insertion "
-            "order, each selection call is repeated 64 times in several fresh processes and must give one candidate.",
+            "order, each selection call is repeated 64 times in several fresh processes and must give one candidate. "
+            "CmapRawGen.tla puts raw bodies of every format number (0,2,4,6,8,10,12,13,14) and length parity into the "
+            "directory (Encode/Decode must return the same key -> bytes map); every access path (Get, GetNoLang, GetBest) "
+            "is swept and must denote the subtable's map for its platform, GetBest equal to Get; CmapSizeGen.tla states "
+            "map families whose tightest format-4 encoding is just below 65535 bytes: the encoder must write a table "
+            "whose length field is its real length and that decodes to the map (or refuse loudly), never wrap.",
     "note": "Trusted: TLC, the JSON trace encoding, the harness' Lookup sweeps (complete 0..0x10FFFF on a sample and in "
             "every replay; otherwise plane 0 completely plus the images of all mapped codes in every plane and 4096 "
             "random code points). x/image is a second opinion on library-encoded tables only. Out of domain: format-4 "
@@ -80,6 +90,20 @@ _EXPLAIN = {
     ("tdec", "redir"): "re-encoding a decoded table does not give a well-formed directory of the same keys and subtables",
     ("tdec", "reshare"): "re-encoding a decoded table does not keep the shared subtables shared",
     ("tdec", "best"): "GetBest on a decoded table did not pick a subtable of the best class present",
+    ("tenc", "get_map"): "Table.Get(key).Lookup does not denote the rune -> glyph map the subtable defines for its platform's encoding",
+    ("tenc", "nolang_map"): "GetNoLang(platform, encoding).Lookup is not the map of a subtable of that platform/encoding (raw or Mac Roman reading)",
+    ("tenc", "best_get"): "GetBest and Get disagree on the same subtable: the subtable GetBest returns is not the rune -> glyph map "
+                          "that Get returns for a key of the best class (e.g. the Mac Roman fallback read as raw codes)",
+    ("tdec", "get_map"): "after cmap.Decode, Table.Get(key).Lookup does not denote the map the subtable defines for its platform's encoding",
+    ("tdec", "nolang_map"): "after cmap.Decode, GetNoLang(platform, encoding).Lookup is not the map of a candidate subtable",
+    ("tdec", "best_get"): "after cmap.Decode, GetBest and Get disagree on the same subtable (different rune -> glyph maps)",
+    ("renc", "dir"): "Table.Encode of RAW subtable bodies (every format number, odd and even lengths) is not a well-formed directory "
+                     "whose records point at exactly the bytes put in",
+    ("renc", "share"): "Table.Encode of raw bodies does not share exactly the identical subtables",
+    ("renc", "libdec"): "cmap.Decode(Table.Encode(t)) is not t for a table of raw subtable bodies (odd lengths / formats 2, 8, 10, 13, 14)",
+    ("rdec", "libdec"): "cmap.Decode of a specification-encoded table with raw bodies loses or changes keys / bytes",
+    ("rdec", "redir"): "re-encoding a decoded table of raw bodies does not give a directory of the same key -> bytes map",
+    ("rdec", "reshare"): "re-encoding a decoded table of raw bodies does not keep shared subtables shared",
     ("hE", "correct"): "call history: the subtable an encoder handed out is not well formed / does not decode to the map",
     ("hE", "stable"): "call history: the byte slice an encoder handed out CHANGED after later calls of the package "
                       "(the result lives in storage that later calls re-use)",
@@ -106,7 +130,18 @@ _EXPLAIN = {
     ("sel", "dbest"): "after Encode/Decode, GetBest is not deterministic or not of the best class present",
     ("sel", "calls"): "harness made fewer than 50 calls per selection site",
 }
-_NOTE_ONLY = {("sel", "nolang_first"), ("sel", "dnolang_first")}
+_NOTE_ONLY = {
+    ("sel", "nolang_first"): "GetNoLang is deterministic but does not pick the first matching record in directory order (lowest "
+                             "language) -- not promised by the repository",
+    ("sel", "dnolang_first"): "GetNoLang is deterministic but does not pick the first matching record in directory order (lowest "
+                              "language) -- not promised by the repository",
+    ("enc", "nowrap"): "a format-4 map just BEYOND the 64 KiB limit (outside the property's domain) is written with a wrapped "
+                       "16-bit length field instead of being refused",
+    ("renc", "tile"): "Table.Encode leaves gaps / overlaps between the stored subtables (offsets are not the running sum of "
+                      "the emitted lengths); legal as long as every record points at the right bytes",
+    ("rdec", "tile"): "re-encoding leaves gaps / overlaps between the stored subtables; legal as long as every record points "
+                      "at the right bytes",
+}
 
 
 def _account(ctx, res, label, extra=None):
@@ -153,8 +188,7 @@ def _validate_files(ctx, files, failures, heap="3g", par=None):
                 e = evs[line - 1]
                 for cl in clauses:
                     if (ev, cl) in _NOTE_ONLY:
-                        msg = ("note: GetNoLang is deterministic but does not pick the first matching record in directory "
-                               "order (lowest language) -- not promised by the repository, not a verdict")
+                        msg = "note (not a verdict): " + _NOTE_ONLY[(ev, cl)]
                         if msg not in ctx.notes:
                             ctx.notes.append(msg)
                         continue
@@ -283,6 +317,12 @@ def run(ctx):
         "Subtables returned by Table.Get must not depend on their input bytes afterwards",
         "GetNoLang: the repository only promises a deterministic answer (comment in cmap.go); WHICH language wins "
         "(today: first record in directory order = lowest language) is reported as a note, not demanded",
+        "size families: a map is in the domain iff the closed-form (= reference encoder) size is <= 65535; there a panic of "
+        "the encoder is accepted (minimality is not promised), a wrapped length field is not; just beyond the limit "
+        "nothing is demanded (silent wrapping is reported as a note)",
+        "GetNoLang: the repository's own test reads a (1,0) subtable through it as raw codes, so both readings are accepted; "
+        "Get and GetBest must agree with each other and be the raw or (uniformly) the Mac Roman reading",
+        "raw bodies: gaps/padding between stored subtables are legal; only 'every record points at the bytes put in' is a verdict",
         "Macintosh key: either reading (raw codes / Mac Roman -> Unicode) is accepted, but formats 0, 6 and 4 of one "
         "map must be read the same way",
     ]
@@ -326,6 +366,14 @@ def run(ctx):
         tgens.append(bg("CmapTableGen exhaustive, 2 contents (directory rules + cases)", "CmapTableGen", cfg="CmapTableGenX.cfg",
                         files={"CmapTableGenX.cfg": _cfg("CmapTableGen.cfg").replace("NC = 3", "NC = 2")},
                         workers=max(2, W // 2), timeout=1500))
+    tgens.append(bg("CmapTableGen exhaustive, no Unicode subtable (legacy fallback), 3 contents", "CmapTableGen",
+                    cfg="CmapTableGenL.cfg", workers=2, timeout=900,
+                    files={"CmapTableGenL.cfg": _cfg("CmapTableGen.cfg").replace("NoUnicode = FALSE", "NoUnicode = TRUE")}))
+    rgen = bg("CmapRawGen: raw bodies of every format number and length parity (directory rules, tiling + cases)", "CmapRawGen",
+              workers=1, simulate=ctx.pick(400, 5000), depth=12, timeout=900)
+    zgen = bg("CmapSizeGen: families at the 16-bit length boundary (closed form = reference encoding for small n)",
+              "CmapSizeGen", cfg="CmapSizeGenN.cfg", workers=2, timeout=900,
+              files={"CmapSizeGenN.cfg": _cfg("CmapSizeGen.cfg").replace("Steps = {0}", "Steps = %s" % ctx.pick("{0}", "{0, 1, 2, 40}"))})
     nsim = ctx.pick(3000, 16000)
     sgens = [bg("CmapGen simulate (<= 4 blocks)", "CmapGen", workers=1, simulate=nsim, depth=40, timeout=1500)]
     if thorough:
@@ -355,6 +403,9 @@ def run(ctx):
 
     def number(cases, kind, full_every, ximg_every):
         for c in cases:
+            if kind in ("struct", "size"):
+                c.setdefault("dom", 1)
+                c.setdefault("tight", 0)
             if thorough and kind == "struct" and nid[0] % 4 != 0 and not c.get("mac"):
                 c["t6"] = []         # the format-6 decode is exercised on a quarter of the structures
             c["id"] = nid[0]
@@ -404,7 +455,40 @@ def run(ctx):
     tcases = number(tall, "table", 1, 1)
     ntab = len(set(json.dumps([c["keys"], c["order"]]) for c in tcases))
     ctx.sample({"table_case": {k: tcases[len(tcases) // 2][k] for k in ("keys", "order", "best")}})
-    tfiles = drive("tables", tcases, "tab", 1500)
+    tfiles = drive("tables", tcases, "tab", 800)
+
+    # ---- raw subtable bodies at the directory level; size families at the 16-bit boundary
+    label, fut = rgen
+    rg = fut.result()
+    _account(ctx, rg, label)
+    if rg.violated or rg.rc != 0:
+        raise vlib.Infra("CmapRawGen violates %s on the model:\n%s" % (rg.violated, rg.error_text[:1500]))
+    if len(rg.cases) < 400:
+        raise vlib.Infra("CmapRawGen produced only %d cases" % len(rg.cases))
+    rawcases = number(rg.cases, "rawtable", 1, 1)
+    nraw = len(set(json.dumps([c["keys"], [s[:8] for s in c["subs"]], c["order"]]) for c in rawcases))
+    nodd = sum(1 for c in rawcases if any(len(s) % 2 for s in c["subs"][:-1]))
+    if nodd < 50:
+        raise vlib.Infra("only %d raw tables have an odd-length body in front of another one" % nodd)
+    ctx.sample({"raw_table_case": {"keys": rawcases[3]["keys"], "body_lengths": [len(s) for s in rawcases[3]["subs"]],
+                                   "formats": [s[1] for s in rawcases[3]["subs"]]}})
+    tfiles += drive("tables", rawcases, "raw", 1500)
+
+    label, fut = zgen
+    zg = fut.result()
+    _account(ctx, zg, label)
+    if zg.violated or zg.rc != 0:
+        raise vlib.Infra("CmapSizeGen violates %s on the model:\n%s" % (zg.violated, zg.error_text[:1500]))
+    zcases = zg.cases
+    if sum(1 for c in zcases if c["dom"] == 1 and c["tight"] > 65400) < 5:
+        raise vlib.Infra("CmapSizeGen produced too few near-limit maps")
+    for c in zcases:
+        c["fmt"], c["lang"] = 4, 0
+    zcases = number(zcases, "size", 1, 1)
+    for c in zcases:
+        c["kind"] = "struct"          # executed like a structure: Encode, library decode, x/image, complete sweep
+    ctx.sample({"size_case": {k: zcases[0][k] for k in ("family", "p", "n", "tight", "dom")}})
+    zfiles = drive("structs", zcases, "size", 2)
 
     # ---- structures
     scases = []
@@ -485,9 +569,11 @@ def run(ctx):
     if r.violated != "ResultsStable":
         raise vlib.Infra("CmapHist with a re-used scratch buffer did not violate ResultsStable (%s): the model is vacuous"
                          % r.violated)
-    _validate_files(ctx, rfiles + tfiles, failures, heap="6g")
-    ctx.cov["traces_validated_against_impl"] += len(rcases) + len(tcases)
+    _validate_files(ctx, rfiles + zfiles + tfiles, failures, heap="6g")
+    ctx.cov["traces_validated_against_impl"] += len(rcases) + len(tcases) + len(rawcases) + len(zcases)
     forget(tcases)
+    forget(rawcases)
+    forget(zcases)
     step = 20000
     for a in range(0, len(scases), step):
         part = scases[a:a + step]
@@ -519,7 +605,11 @@ def run(ctx):
     ctx.cov["bounds"]["selection"] = ("every insertion order of 2..%d keys of a 7-key pool (3+2 Macintosh languages); %d calls "
                                       "per site and table in each of %d fresh processes (%d selection calls)"
                                       % (nkeys, 64, nproc, nselcalls))
-    ctx.cov["distinct_nontrivial"] = ntab + nstruct + len(rcases) + len(hcases) + len(selcases)
+    ctx.cov["bounds"]["raw_tables"] = ("4 keys x (absent | 12 raw bodies: formats 0,2,4,6,8,10,12,13,14, odd and even lengths) x 2 "
+                                       "storage orders, sampled: %d tables, %d with an odd body in front of another" % (nraw, nodd))
+    ctx.cov["bounds"]["size_families"] = ("pairs {c,c+d} d=3,4,5; singletons 5/8 apart; permuted runs of 6/8: largest n with a "
+                                          "65535-byte encoding%s, and the next n beyond" % (" and 1, 2, 40 below" if thorough else ""))
+    ctx.cov["distinct_nontrivial"] = ntab + nstruct + len(rcases) + len(hcases) + len(selcases) + nraw + len(zcases)
     ctx.cov["rule"] = ("distinct (key set, sharing pattern, storage order) table cases + distinct (format, anchor, block "
                        "sequence, language, spec-encoded variant) structures generated by TLC + seeded big maps + call histories + (key sequence) selection cases; "
                        "evaluations = recorded events judged by TLC with CmapTrace.tla")
